@@ -233,4 +233,194 @@ theorem silhouetteStep_complete (ts : Array (Facet K)) (pts : Array (V3 K)) (poi
   rw [w4, w5] at hq
   exact ⟨q, hq⟩
 
+
+/-! ## no half-edge is listed twice -/
+
+def NodupIdx (out : Array (Nat × Nat)) : Prop :=
+  ∀ (q q' : Nat) (e : Nat × Nat), out[q]? = some e → out[q']? = some e → q = q'
+
+/-- an entry of `s'` is an entry of `s`, or the target of the call, or faces a facet that was still valid in `s` -/
+def NewFrom (ts0 : Array (Facet K)) (s s' : Sil K) (facet iid : Nat) : Prop :=
+  ∀ (q : Nat) (e : Nat × Nat), s'.out[q]? = some e →
+    (∃ q' : Nat, s.out[q']? = some e) ∨ e = (facet, iid) ∨ (tAt s.ts ((tAt ts0 e.1).adj.get e.2)).valid = true
+
+theorem computeSilhouette_nodup (ts0 : Array (Facet K)) (pts : Array (V3 K)) (point : Nat) (hT : Twin ts0) :
+    ∀ (fuel facet iid : Nat) (s s' : Sil K), computeSilhouette pts point fuel facet iid s = s' →
+      SilInv ts0 pts point s → facet < ts0.size → iid < 3 →
+      (tAt s.ts ((tAt ts0 facet).adj.get iid)).valid = false →
+      NodupIdx s.out → (∀ q : Nat, s.out[q]? ≠ some (facet, iid)) →
+      NodupIdx s'.out ∧ NewFrom ts0 s s' facet iid := by
+  intro fuel
+  induction fuel with
+  | zero =>
+    intro facet iid s s' h _ _ _ _ hnd _
+    simp only [computeSilhouette] at h; subst h
+    exact ⟨hnd, fun q e hq => Or.inl ⟨q, hq⟩⟩
+  | succ fuel ih =>
+    intro facet iid s s' h hs hf hi hcaller hnd hnot
+    unfold computeSilhouette at h
+    obtain ⟨e1, e2, e3, e4, e5, e6, e7⟩ := hs.shr.2 facet
+    by_cases hv : (tAt s.ts facet).valid = true
+    · simp only [hv, if_true] at h
+      by_cases hsb : (tAt s.ts facet).seenBy point pts = true
+      · simp only [hsb, Bool.not_true, Bool.false_eq_true, if_false] at h
+        have hv0 : (tAt ts0 facet).valid = true := e7 hv
+        have hj1 : (iid + 1) % 3 < 3 := Nat.mod_lt _ (by omega)
+        have hj2 : (iid + 2) % 3 < 3 := Nat.mod_lt _ (by omega)
+        obtain ⟨t1, t2, _, t4, t5, _, _⟩ := hT facet hf hv0 _ hj1
+        obtain ⟨u1, u2, _, u4, u5, _, _⟩ := hT facet hf hv0 _ hj2
+        rw [e1, e2] at h
+        generalize hs1def : ({ s with ts := invalidate s.ts facet, removed := s.removed.push facet } : Sil K) = s1 at h
+        have hs1ts : s1.ts = invalidate s.ts facet := by rw [← hs1def]
+        have hs1out : s1.out = s.out := by rw [← hs1def]
+        have hshr1 : Shrunk s1.ts s.ts := by rw [hs1ts]; exact shrunk_invalidate _ _
+        have hinvf : (tAt s1.ts facet).valid = false := by rw [hs1ts]; exact invalidate_valid _ _
+        have hsil1 : SilInv ts0 pts point s1 := by
+          refine ⟨hshr1.trans hs.shr, fun q a j hq => ?_⟩
+          rw [hs1out] at hq
+          obtain ⟨o1, o2, o3, o4, o5⟩ := hs.out q a j hq
+          have hseen : (tAt s.ts facet).seenBy point pts = (tAt ts0 facet).seenBy point pts := seenBy_congr _ _ _ _ e4 e3 e5
+          have hne : facet ≠ a := fun hh => by subst hh; rw [← hseen, hsb] at o4; exact absurd o4 (by simp)
+          refine ⟨o1, o2, ?_, o4, valid_false_of_shrunk hshr1 _ o5⟩
+          rw [hs1ts, tAt_invalidate, if_neg (fun h => hne h.1)]; exact o3
+        -- entries already in `s.out` face a facet that is invalid in `s`; the two targets face `facet`, valid in `s`
+        have hold : ∀ (q : Nat) (a j : Nat), s.out[q]? = some (a, j) → (tAt ts0 a).adj.get j ≠ facet := fun q a j hq hh => by
+          have := (hs.out q a j hq).2.2.2.2
+          rw [hh, hv] at this; exact absurd this (by simp)
+        generalize hs2def : computeSilhouette pts point fuel ((tAt ts0 facet).adj.get ((iid + 1) % 3))
+          ((tAt ts0 facet).ind.get ((iid + 1) % 3)) s1 = s2 at h
+        have hc1 : (tAt s1.ts ((tAt ts0 ((tAt ts0 facet).adj.get ((iid + 1) % 3))).adj.get
+            ((tAt ts0 facet).ind.get ((iid + 1) % 3)))).valid = false := by rw [t4]; exact hinvf
+        have hnot1 : ∀ q : Nat, s1.out[q]? ≠ some ((tAt ts0 facet).adj.get ((iid + 1) % 3), (tAt ts0 facet).ind.get ((iid + 1) % 3)) := by
+          intro q hq; rw [hs1out] at hq; exact hold q _ _ hq t4
+        obtain ⟨n1, w1⟩ := ih _ _ s1 s2 hs2def hsil1 t1 t2 hc1 (by rw [hs1out]; exact hnd) hnot1
+        obtain ⟨hsil2, hshr2⟩ := computeSilhouette_inv ts0 pts point hT fuel _ _ s1 hsil1 t1 t2 hc1
+        rw [hs2def] at hsil2 hshr2
+        have hinvf2 : (tAt s2.ts facet).valid = false := valid_false_of_shrunk hshr2 _ hinvf
+        have hc2 : (tAt s2.ts ((tAt ts0 ((tAt ts0 facet).adj.get ((iid + 2) % 3))).adj.get
+            ((tAt ts0 facet).ind.get ((iid + 2) % 3)))).valid = false := by rw [u4]; exact hinvf2
+        have hnot2 : ∀ q : Nat, s2.out[q]? ≠ some ((tAt ts0 facet).adj.get ((iid + 2) % 3), (tAt ts0 facet).ind.get ((iid + 2) % 3)) := by
+          intro q hq
+          rcases w1 q _ hq with ⟨q', hq'⟩ | heq | hval
+          · rw [hs1out] at hq'; exact hold q' _ _ hq' u4
+          · -- the two targets are different half-edges: their twins are edges (iid+1)%3 and (iid+2)%3 of `facet`
+            have h1 := congrArg Prod.fst heq
+            have h2 := congrArg Prod.snd heq
+            simp only at h1 h2
+            have : (iid + 2) % 3 = (iid + 1) % 3 := by rw [← u5, ← t5, h1, h2]
+            omega
+          · simp only at hval
+            rw [u4, hinvf] at hval; exact absurd hval (by simp)
+        obtain ⟨n2, w2⟩ := ih _ _ s2 s' h hsil2 u1 u2 hc2 n1 hnot2
+        refine ⟨n2, fun q e hq => ?_⟩
+        rcases w2 q e hq with ⟨q', hq'⟩ | heq | hval
+        · rcases w1 q' e hq' with ⟨q'', hq''⟩ | heq | hval
+          · left; rw [hs1out] at hq''; exact ⟨q'', hq''⟩
+          · right; right; rw [heq]; simp only; rw [t4]; exact hv
+          · right; right; exact (hshr1.2 _).2.2.2.2.2.2 hval
+        · right; right; rw [heq]; simp only; rw [u4]; exact hv
+        · right; right; exact (hshr1.2 _).2.2.2.2.2.2 ((hshr2.2 _).2.2.2.2.2.2 hval)
+      · have hsb' : (tAt s.ts facet).seenBy point pts = false := bool_false_of_not_true hsb
+        simp only [hsb', Bool.not_false, if_true] at h
+        subst h
+        refine ⟨fun q q' e hq hq' => ?_, fun q e hq => ?_⟩
+        · show q = q'
+          have hq1 : (s.out.push (facet, iid))[q]? = some e := hq
+          have hq2 : (s.out.push (facet, iid))[q']? = some e := hq'
+          have l1 := getElem?_lt_of_some _ _ _ hq1
+          have l2 := getElem?_lt_of_some _ _ _ hq2
+          simp only [Array.size_push] at l1 l2
+          by_cases c1 : q < s.out.size <;> by_cases c2 : q' < s.out.size
+          · rw [Array.getElem?_push_lt c1] at hq1; rw [Array.getElem?_push_lt c2] at hq2
+            exact hnd q q' e (by rw [← hq1]; simp [c1]) (by rw [← hq2]; simp [c2])
+          · have : q' = s.out.size := by omega
+            subst this
+            rw [Array.getElem?_push_size] at hq2
+            rw [Array.getElem?_push_lt c1] at hq1
+            simp only [Option.some.injEq] at hq2; subst hq2
+            exact absurd (by rw [← hq1]; simp [c1]) (hnot q)
+          · have : q = s.out.size := by omega
+            subst this
+            rw [Array.getElem?_push_size] at hq1
+            rw [Array.getElem?_push_lt c2] at hq2
+            simp only [Option.some.injEq] at hq1; subst hq1
+            exact absurd (by rw [← hq2]; simp [c2]) (hnot q')
+          · omega
+        · have hq1 : (s.out.push (facet, iid))[q]? = some e := hq
+          have l1 := getElem?_lt_of_some _ _ _ hq1
+          simp only [Array.size_push] at l1
+          by_cases c1 : q < s.out.size
+          · rw [Array.getElem?_push_lt c1] at hq1
+            exact Or.inl ⟨q, by rw [← hq1]; simp [c1]⟩
+          · have : q = s.out.size := by omega
+            subst this
+            rw [Array.getElem?_push_size] at hq1
+            simp only [Option.some.injEq] at hq1
+            exact Or.inr (Or.inl hq1.symm)
+    · have hv' : (tAt s.ts facet).valid = false := bool_false_of_not_true hv
+      simp only [hv', Bool.false_eq_true, if_false] at h
+      subst h
+      exact ⟨hnd, fun q e hq => Or.inl ⟨q, hq⟩⟩
+
+
+theorem silhouetteStep_nodup (ts : Array (Facet K)) (pts : Array (V3 K)) (point i : Nat) (hT : Twin ts) (hi : i < ts.size)
+    (hv : (tAt ts i).valid = true) : NodupIdx (silhouetteStep pts point i ts).out := by
+  unfold silhouetteStep
+  simp only
+  generalize hs0def : (⟨#[], #[i], invalidate ts i⟩ : Sil K) = s0
+  have hs0ts : s0.ts = invalidate ts i := by rw [← hs0def]
+  have hs0out : s0.out = #[] := by rw [← hs0def]
+  have h0 : SilInv ts pts point s0 := by
+    rw [← hs0def]; exact ⟨shrunk_invalidate _ _, fun q a j hq => absurd hq (by simp)⟩
+  have hi0 : (tAt s0.ts i).valid = false := by rw [hs0ts]; exact invalidate_valid _ _
+  obtain ⟨a1, a2, _, a4, a5, _, _⟩ := hT i hi hv 0 (by omega)
+  obtain ⟨b1, b2, _, b4, b5, _, _⟩ := hT i hi hv 1 (by omega)
+  obtain ⟨c1, c2, _, c4, c5, _, _⟩ := hT i hi hv 2 (by omega)
+  generalize hs1def : computeSilhouette pts point (ts.size + 1) ((tAt ts i).adj.get 0) ((tAt ts i).ind.get 0) s0 = s1
+  have hc1 : (tAt s0.ts ((tAt ts ((tAt ts i).adj.get 0)).adj.get ((tAt ts i).ind.get 0))).valid = false := by rw [a4]; exact hi0
+  obtain ⟨n1, w1⟩ := computeSilhouette_nodup ts pts point hT _ _ _ s0 s1 hs1def h0 a1 a2 hc1
+    (by rw [hs0out]; intro q q' e hq; exact absurd hq (by simp)) (by rw [hs0out]; intro q hq; exact absurd hq (by simp))
+  obtain ⟨r1, r2⟩ := computeSilhouette_inv ts pts point hT (ts.size + 1) _ _ s0 h0 a1 a2 hc1
+  rw [hs1def] at r1 r2
+  have hi1 := valid_false_of_shrunk r2 i hi0
+  generalize hs2def : computeSilhouette pts point (ts.size + 1) ((tAt ts i).adj.get 1) ((tAt ts i).ind.get 1) s1 = s2
+  have hc2 : (tAt s1.ts ((tAt ts ((tAt ts i).adj.get 1)).adj.get ((tAt ts i).ind.get 1))).valid = false := by rw [b4]; exact hi1
+  have hnot2 : ∀ q : Nat, s1.out[q]? ≠ some ((tAt ts i).adj.get 1, (tAt ts i).ind.get 1) := by
+    intro q hq
+    rcases w1 q _ hq with ⟨q', hq'⟩ | heq | hval
+    · rw [hs0out] at hq'; exact absurd hq' (by simp)
+    · have h1 := congrArg Prod.fst heq
+      have h2 := congrArg Prod.snd heq
+      simp only at h1 h2
+      have : (1 : Nat) = 0 := by rw [← b5, ← a5, h1, h2]
+      omega
+    · simp only at hval
+      rw [b4, hi0] at hval; exact absurd hval (by simp)
+  obtain ⟨n2, w2⟩ := computeSilhouette_nodup ts pts point hT _ _ _ s1 s2 hs2def r1 b1 b2 hc2 n1 hnot2
+  obtain ⟨t1, t2⟩ := computeSilhouette_inv ts pts point hT (ts.size + 1) _ _ s1 r1 b1 b2 hc2
+  rw [hs2def] at t1 t2
+  have hi2 := valid_false_of_shrunk t2 i hi1
+  generalize hs3def : computeSilhouette pts point (ts.size + 1) ((tAt ts i).adj.get 2) ((tAt ts i).ind.get 2) s2 = s3
+  have hc3 : (tAt s2.ts ((tAt ts ((tAt ts i).adj.get 2)).adj.get ((tAt ts i).ind.get 2))).valid = false := by rw [c4]; exact hi2
+  have hnot3 : ∀ q : Nat, s2.out[q]? ≠ some ((tAt ts i).adj.get 2, (tAt ts i).ind.get 2) := by
+    intro q hq
+    rcases w2 q _ hq with ⟨q', hq'⟩ | heq | hval
+    · rcases w1 q' _ hq' with ⟨q'', hq''⟩ | heq | hval
+      · rw [hs0out] at hq''; exact absurd hq'' (by simp)
+      · have h1 := congrArg Prod.fst heq
+        have h2 := congrArg Prod.snd heq
+        simp only at h1 h2
+        have : (2 : Nat) = 0 := by rw [← c5, ← a5, h1, h2]
+        omega
+      · simp only at hval
+        rw [c4, hi0] at hval; exact absurd hval (by simp)
+    · have h1 := congrArg Prod.fst heq
+      have h2 := congrArg Prod.snd heq
+      simp only at h1 h2
+      have : (2 : Nat) = 1 := by rw [← c5, ← b5, h1, h2]
+      omega
+    · simp only at hval
+      rw [c4, hi1] at hval; exact absurd hval (by simp)
+  exact (computeSilhouette_nodup ts pts point hT _ _ _ s2 s3 hs3def t1 c1 c2 hc3 n2 hnot3).1
+
 end C12.H3
